@@ -15,6 +15,8 @@ pub struct Site {
     pub scope: Vec<Bid>,
     pub in_function: bool,
     pub in_rec: bool,
+    /// Nothing but parentheses, annotations and `|` lies between the node and the body of a `rec`.
+    pub at_rec_head: bool,
 }
 
 fn collect(e: &E, site: Site, out: &mut Vec<Site>) {
@@ -29,8 +31,13 @@ fn collect(e: &E, site: Site, out: &mut Vec<Site>) {
             E::Rec(b, _) => {
                 s.scope.push(*b);
                 s.in_rec = true;
+                s.at_rec_head = true;
             }
-            _ => s.empty_ann = true,
+            E::Op(OpKind::Sum, _) => s.empty_ann = true,
+            _ => {
+                s.empty_ann = true;
+                s.at_rec_head = false;
+            }
         }
         collect(c, s, out);
     }
@@ -43,10 +50,10 @@ pub fn sites(prog: &Program) -> Vec<Site> {
             match st {
                 Stmt::Let(d) => collect(
                     &d.body,
-                    Site { module: mi, stmt: si, path: vec![], empty_ann: false, scope: d.params.clone(), in_function: !d.params.is_empty(), in_rec: false },
+                    Site { module: mi, stmt: si, path: vec![], empty_ann: false, scope: d.params.clone(), in_function: !d.params.is_empty(), in_rec: false, at_rec_head: false },
                     &mut out,
                 ),
-                Stmt::Res(e) => collect(e, Site { module: mi, stmt: si, path: vec![], empty_ann: true, scope: vec![], in_function: false, in_rec: false }, &mut out),
+                Stmt::Res(e) => collect(e, Site { module: mi, stmt: si, path: vec![], empty_ann: true, scope: vec![], in_function: false, in_rec: false, at_rec_head: false }, &mut out),
                 Stmt::Use(_) => {}
             }
         }
@@ -269,6 +276,9 @@ pub fn abstract_out(prog: &mut Program, t: &mut Tape) -> Option<&'static str> {
             s.empty_ann
                 && !s.path.is_empty()
                 && !s.in_function
+                // `rec x p` over a parameter is only accepted where the function is applied in its own
+                // module (known finding F17): that shape is not produced.
+                && !s.at_rec_head
                 && matches!(&prog.modules[s.module].stmts[s.stmt], Stmt::Let(d) if !prog.binders[d.id].name.starts_with('@'))
                 && free_local_binders(node(prog, s), prog).is_empty()
         })
